@@ -2458,6 +2458,11 @@ pub fn compile<I: BufRead, O: Write>(
                         filename = mapped_lines[l - 1].0.clone();
                         line = mapped_lines[l - 1].1;
                         LineColLocation::Pos((mapped_lines[l - 1].1 as usize, c))
+                    } else if mapped_lines.is_empty() {
+                        // Nothing reached the compiler (empty source)
+                        filename = std::rc::Rc::new(args.input.clone());
+                        line = l as u32;
+                        LineColLocation::Pos((l, c))
                     } else {
                         let l = mapped_lines.len();
                         filename = mapped_lines[l - 1].0.clone();
@@ -2466,6 +2471,7 @@ pub fn compile<I: BufRead, O: Write>(
                     }
                 }
                 LineColLocation::Span((l1, c1), (l2, c2)) => {
+                    let l2 = l2.clamp(1, mapped_lines.len().max(1));
                     if l1 - 1 < mapped_lines.len() {
                         filename = mapped_lines[l1 - 1].0.clone();
                         line = mapped_lines[l1 - 1].1;
@@ -2473,6 +2479,11 @@ pub fn compile<I: BufRead, O: Write>(
                             (mapped_lines[l1 - 1].1 as usize, c1),
                             (mapped_lines[l2 - 1].1 as usize, c2),
                         )
+                    } else if mapped_lines.is_empty() {
+                        // Nothing reached the compiler (empty source)
+                        filename = std::rc::Rc::new(args.input.clone());
+                        line = l1 as u32;
+                        LineColLocation::Span((l1, c1), (l2, c2))
                     } else {
                         let l1 = mapped_lines.len();
                         filename = mapped_lines[l1 - 1].0.clone();
